@@ -189,6 +189,10 @@ func (ex *exec) fieldPath(base Value, sel *types.Selection, pos token.Pos) Value
 }
 
 func (ex *exec) checkNonNil(st *State, p *Ptr, pos token.Pos) {
+	if p.Obj != nil && p.NilC != nil {
+		ex.runtimeCheck(st, "nil-deref", "", Not(p.NilC), pos)
+		return
+	}
 	if p.Obj == nil {
 		ex.oblige(st, "nil-deref", "", False, pos)
 		ex.fail(pos, "nil pointer dereference on every path")
@@ -508,7 +512,7 @@ func (ex *exec) evalComposite(st *State, e *ast.CompositeLit) Value {
 
 func (ex *exec) compositeArray(st *State, e *ast.CompositeLit, elem types.Type, n int64) Value {
 	info := ex.info()
-	scalar := ex.scalarSort(elem) != nil && !(ex.mode == ModeInt && n <= smallArray)
+	scalar := ex.scalarSort(elem) != nil && !ex.smallArr(elem, n)
 	var arrT *Term
 	var arrV *Array
 	if scalar {
@@ -585,11 +589,16 @@ func (ex *exec) evalBinary(st *State, e *ast.BinaryExpr) Value {
 			sub.assume(Not(l))
 		}
 		var r *Term
+		guard := l
+		if e.Op == token.LOR {
+			guard = Not(l)
+		}
+		npc := len(sub.pc)
 		if sub.infeasible() {
 			r = BoolC(e.Op == token.LAND)
 		} else {
 			r = ex.evalExpr(sub, e.Y).(*Term)
-			ex.adoptHeap(st, sub)
+			ex.adoptGuarded(st, sub, guard, npc, e.Pos())
 		}
 		if e.Op == token.LAND {
 			return And(l, r)
@@ -639,11 +648,40 @@ func (ex *exec) evalBinary(st *State, e *ast.BinaryExpr) Value {
 	return ex.binop(st, e.Op, opT, l, r, e.Pos())
 }
 
-// adoptHeap copies heap effects of a guarded sub-evaluation back (only fresh objects may have been added).
-func (ex *exec) adoptHeap(st, sub *State) {
+// adoptGuarded brings the effects of a guarded sub-evaluation (right operand of && / ||)
+// back into st: facts learned hold under the guard, heap changes are merged with ite.
+func (ex *exec) adoptGuarded(st, sub *State, guard *Term, npc int, pos token.Pos) {
+	for _, p := range sub.pc[npc:] {
+		st.assume(Implies(guard, p))
+	}
 	for o, v := range sub.heap {
-		if _, ok := st.heap[o]; !ok {
+		old, ok := st.heap[o]
+		if !ok {
 			st.heap[o] = v
+			continue
+		}
+		if !valueIdentical(old, v) {
+			func() {
+				defer func() {
+					if r := recover(); r != nil {
+						if _, ok := r.(mergeFail); ok {
+							ex.fail(pos, "side effect in the right operand of && / || cannot be merged")
+						}
+						panic(r)
+					}
+				}()
+				st.heap[o] = mergeValue(guard, v, old)
+			}()
+		}
+	}
+	for k, v := range sub.ghost {
+		if _, ok := st.ghost[k]; !ok {
+			st.ghost[k] = v
+		}
+	}
+	for k, v := range sub.gver {
+		if v > st.gver[k] {
+			st.gver[k] = v
 		}
 	}
 }
@@ -689,12 +727,21 @@ func (ex *exec) valuesEqual(st *State, l, r Value, pos token.Pos) *Term {
 	case *Ptr:
 		switch y := r.(type) {
 		case *Ptr:
-			if x.Obj == nil || y.Obj == nil {
-				return BoolC(x.Obj == nil && y.Obj == nil)
+			if x.Obj == nil && y.Obj == nil {
+				return True
+			}
+			if x.Obj == nil {
+				return ptrNil(y)
+			}
+			if y.Obj == nil {
+				return ptrNil(x)
+			}
+			if x.NilC != nil || y.NilC != nil {
+				return And(Eq(ptrNil(x), ptrNil(y)), Or(ptrNil(x), BoolC(samePtr(x, y))))
 			}
 			return BoolC(samePtr(x, y))
 		case *Opaque:
-			return BoolC(x.Obj == nil)
+			return ptrNil(x)
 		}
 	case *Slice:
 		// only comparison with nil is legal
@@ -995,4 +1042,14 @@ func (ex *exec) convert(st *State, v Value, from, to types.Type, pos token.Pos) 
 		return ex.coerce(v, to, nil)
 	}
 	return v
+}
+
+func ptrNil(p *Ptr) *Term {
+	if p.Obj == nil {
+		return True
+	}
+	if p.NilC != nil {
+		return p.NilC
+	}
+	return False
 }
